@@ -52,7 +52,7 @@ func execOp(f []string) string {
 		case "maven-spelling":
 			return fmt.Sprintf("ok z=%d", b01(zeroRun(fw.Unhx(f[2]))))
 		case "pypi-spelling":
-			return fmt.Sprintf("ok u=%d", b01(upperEarly(fw.Unhx(f[2]))))
+			return fmt.Sprintf("ok u=%d ve=%d", b01(upperEarly(fw.Unhx(f[2]))), b01(vEpoch(fw.Unhx(f[2]))))
 		}
 		a, ok := decode(f[1], f[2])
 		if !ok {
@@ -150,6 +150,11 @@ func zeroRun(s string) bool {
 	return false
 }
 
+// vEpoch: a leading v followed, somewhere, by the epoch mark.
+func vEpoch(s string) bool {
+	return len(s) > 0 && (s[0] == 'v' || s[0] == 'V') && strings.Contains(s, "!")
+}
+
 func classify(oracle string, ops, res []string) string {
 	switch oracle {
 	case "agree":
@@ -175,6 +180,9 @@ func classify(oracle string, ops, res []string) string {
 		}
 	case "accepts-spelling":
 		f := strings.Fields(ops[0])
+		if len(f) == 4 && f[2] == "PyPI" && vEpoch(fw.Unhx(f[3])) {
+			return "F-C02-pypi-v-epoch"
+		}
 		if len(f) == 4 && f[2] == "PyPI" && upperEarly(fw.Unhx(f[3])) {
 			return "F-C02-pypi-upper"
 		}
